@@ -531,6 +531,100 @@ func multiSystematic(k int) {
 	}
 }
 
+// mworld: observation of several counters of one file object (lock-step of the
+// multi scenarios against Model/CounterMulti)
+type mworld struct {
+	f     *counter.VerifFile
+	cs    []*counter.Counter
+	maps  []mapping
+	files []string
+}
+
+func (w *mworld) noteCur() {
+	base := w.f.CurBase()
+	if base == 0 {
+		return
+	}
+	for _, m := range w.maps {
+		if m.base == base {
+			return
+		}
+	}
+	name := w.f.CurFileName()
+	found := false
+	for _, fn := range w.files {
+		if fn == name {
+			found = true
+		}
+	}
+	if !found {
+		w.files = append(w.files, name)
+	}
+	w.maps = append(w.maps, mapping{len(w.maps), base, uintptr(w.f.CurLen()), name})
+}
+
+func (w *mworld) codeOf(addr uintptr) int64 {
+	for _, m := range w.maps {
+		if addr >= m.base && addr < m.base+m.len {
+			return int64(m.id) + 1
+		}
+	}
+	return -1
+}
+
+// observe: per counter (word, pointer code, persisted), current mapping code, closed mappings
+func (w *mworld) observe() []string {
+	w.noteCur()
+	pers := make([]uint64, len(w.cs))
+	for _, fn := range w.files {
+		data, err := os.ReadFile(fn)
+		if err != nil {
+			continue
+		}
+		pf, err := counter.Parse(fn, data)
+		if err != nil {
+			continue
+		}
+		for i := range w.cs {
+			pers[i] += pf.Count[fmt.Sprintf("m%d", i)]
+		}
+	}
+	var o []string
+	for i, c := range w.cs {
+		pc := int64(0)
+		if !counter.VerifPtrNil(c) {
+			pc = w.codeOf(counter.VerifPtrAddr(c))
+		}
+		o = append(o, U(counter.VerifWord(c)), I(pc), U(pers[i]))
+	}
+	cur := int64(0)
+	if base := w.f.CurBase(); base != 0 {
+		cur = w.codeOf(base)
+	}
+	o = append(o, I(cur), I(int64(vatomic.NClosed())))
+	return o
+}
+
+// listed: the registration list from the head
+func (w *mworld) listed() []int {
+	var l []int
+	p := w.f.HeadPtr()
+	for n := 0; p != 0 && p != w.f.EndPtr() && n < 100; n++ {
+		idx := -1
+		for i, c := range w.cs {
+			if counter.VerifCounterPtr(c) == p {
+				idx = i
+			}
+		}
+		if idx < 0 {
+			break
+		}
+		l = append(l, idx)
+		p = counter.VerifNextPtr(w.cs[idx])
+	}
+	return l
+}
+
 func multiRun(cfg multiCfg) int {
 	dir, err := os.MkdirTemp(root, "m")
 	if err != nil {
@@ -564,6 +658,8 @@ func multiRun(cfg multiCfg) int {
 	}
 	fname := f0.CurFileName()
 	f0.Close()
+	vatomic.ResetClosed()
+	counter.VerifConcRelease()
 	// this process: several counters incremented before the file is opened
 	f := counter.VerifNewFile()
 	nc := cfg.npend
@@ -584,7 +680,10 @@ func multiRun(cfg multiCfg) int {
 	}
 	nc = len(cs)
 	type th struct {
-		fn func()
+		fn   func()
+		kind string
+		ctr  int
+		amt  uint64
 	}
 	var ths []th
 	// the first Adds of the fresh counters come first in thread order: a single
@@ -595,7 +694,7 @@ func multiRun(cfg multiCfg) int {
 			i := i
 			k := uint64(1 + rnd.Intn(3))
 			want[i] += k
-			ths = append(ths, th{func() { cs[i].Add(int64(k)) }})
+			ths = append(ths, th{func() { cs[i].Add(int64(k)) }, "add", i, k})
 		}
 	}
 	if cfg.twice {
@@ -603,16 +702,25 @@ func multiRun(cfg multiCfg) int {
 		for k := 0; k < nf; k++ {
 			i := len(cs) - nf + k
 			want[i] += 2
-			ths = append(ths, th{func() { cs[i].Add(2) }})
+			ths = append(ths, th{func() { cs[i].Add(2) }, "add", i, 2})
 		}
 	}
-	ths = append(ths, th{func() { f.Rotate1() }})
+	rotKind := "rot"
+	if cfg.full {
+		rotKind = "rotf"
+	}
+	ths = append(ths, th{func() { f.Rotate1() }, rotKind, 0, 0})
 	for j := 0; j < cfg.extra; j++ {
 		i := rnd.Intn(nc)
 		k := uint64(1 + rnd.Intn(3))
 		want[i] += k
-		ths = append(ths, th{func() { cs[i].Add(int64(k)) }})
+		ths = append(ths, th{func() { cs[i].Add(int64(k)) }, "add", i, k})
 	}
+	mw := &mworld{f: f, cs: cs}
+	init0 := mw.observe()
+	listed0 := mw.listed()
+	var lsteps []string
+	var lastObs []string
 	s := vsched.New(true)
 	defer vsched.Stop()
 	tids := make([]int, len(ths))
@@ -682,6 +790,29 @@ func multiRun(cfg multiCfg) int {
 			info = s.Step(tids[i])
 			trace = append(trace, fmt.Sprintf("t%d %s@%x -> next=%s@%x done=%v", i, pre.Label, pre.Addr, info.Label, info.Addr, info.Done))
 		}
+		lsteps = append(lsteps, I(int64(i)))
+		// a lock attempt that found the lock held changes nothing: no need to
+		// decode the file again (a self-deadlock otherwise costs budget x parse)
+		if !info.Blocked || lastObs == nil {
+			lastObs = mw.observe()
+		}
+		lsteps = append(lsteps, lastObs...)
+		if debug {
+			fmt.Fprintf(os.Stderr, "  [%d] %s => %v\n", nsteps, trace[len(trace)-1], lastObs)
+		}
+		if info.Blocked {
+			// deadlock: every unfinished thread is parked before a lock it cannot take
+			all := true
+			for j := range ths {
+				if tids[j] < 0 || (!s.Done(tids[j]) && !s.Last(tids[j]).Blocked) {
+					all = false
+				}
+			}
+			if all {
+				status = "hang"
+				break
+			}
+		}
 		if info.Panic != "" {
 			status = "panic"
 			fmt.Fprintln(os.Stderr, info.Panic)
@@ -689,6 +820,18 @@ func multiRun(cfg multiCfg) int {
 		}
 	}
 	fields := []string{"multi", status, I(int64(nc))}
+	// lock-step part: initial observation, registration list, thread programs, one observation per step
+	fields = append(fields, init0...)
+	fields = append(fields, I(int64(len(listed0))))
+	for _, c := range listed0 {
+		fields = append(fields, I(int64(c)))
+	}
+	fields = append(fields, I(int64(len(ths))))
+	for _, t := range ths {
+		fields = append(fields, t.kind, I(int64(t.ctr)), U(t.amt))
+	}
+	fields = append(fields, I(int64(nsteps)))
+	fields = append(fields, lsteps...)
 	if status == "ok" {
 		data, _ := os.ReadFile(fname)
 		pf, perr := counter.Parse(fname, data)
@@ -825,6 +968,59 @@ func systematic(k int) {
 	}
 }
 
+// regWindow (only with VH_REGWINDOW=1; a demonstration, not part of the check):
+// the window between register's claim of c.next and the link into the list.
+// File open; goroutine A's first Add on a fresh counter claims c.next and is
+// parked before the link; goroutine B's Add on the same counter finds it claimed
+// and gets a pointer into the current mapping; a rotation stores a new mapping,
+// its invalidateCounters walk misses the counter (not on the list), and it closes
+// the old mapping; goroutine D's Add then ENTERS its reader section through the
+// closed mapping (Model/CounterMulti predicts exactly this: 2 faults, both flags clear).
+func regWindow() {
+	dir, err := os.MkdirTemp(root, "w")
+	if err != nil {
+		panic(err)
+	}
+	defer os.RemoveAll(dir)
+	telemetry.Default = telemetry.NewDir(dir)
+	os.MkdirAll(telemetry.Default.LocalDir(), 0777)
+	os.WriteFile(filepath.Join(telemetry.Default.LocalDir(), "weekends"), []byte("0\n"), 0666)
+	vatomic.ResetClosed()
+	now := time.Date(2024, 1, 3, 10, 0, 0, 0, time.UTC)
+	counter.CounterTime = func() time.Time { return now }
+	f := counter.VerifNewFile()
+	f.Rotate1() // the file is open
+	c := f.NewCounter("m0")
+	mw := &mworld{f: f, cs: []*counter.Counter{c}}
+	fmt.Fprintf(os.Stderr, "regwindow: initial %v\n", mw.observe())
+	s := vsched.New(true)
+	defer vsched.Stop()
+	a := s.Go(func() { c.Add(1) })
+	for i := 0; i < 3; i++ { // c.next.Load, f.counters.Load, c.next.CAS: claimed, parked before the link
+		s.Step(a)
+	}
+	fmt.Fprintf(os.Stderr, "regwindow: A parked before %s; list=%v\n", s.Last(a).Label, mw.listed())
+	run := func(name string, fn func()) {
+		ev0 := len(s.Events)
+		t := s.Go(fn)
+		for n := 0; !s.Done(t) && n < 500; n++ {
+			s.Step(t)
+		}
+		fmt.Fprintf(os.Stderr, "regwindow: %s done=%v obs=%v events=%v\n", name, s.Done(t), mw.observe(), s.Events[ev0:])
+	}
+	run("B Add(2)", func() { c.Add(2) })
+	now = now.Add(8 * 24 * time.Hour)
+	run("C rotate1 (next week)", func() { f.Rotate1() })
+	run("D Add(4)", func() { c.Add(4) })
+	for n := 0; !s.Done(a) && n < 500; n++ {
+		s.Step(a)
+	}
+	fmt.Fprintf(os.Stderr, "regwindow: A resumed, done=%v obs=%v list=%v\n", s.Done(a), mw.observe(), mw.listed())
+	f.Close()
+	vatomic.ResetClosed()
+	counter.VerifConcRelease()
+}
+
 func main() {
 	outPath := os.Args[1]
 	n, _ := strconv.Atoi(os.Args[2])
@@ -837,6 +1033,9 @@ func main() {
 	}
 	defer os.RemoveAll(root)
 	counter.VerifConcInit()
+	if os.Getenv("VH_REGWINDOW") != "" {
+		regWindow()
+	}
 	for i := 0; i < n; i++ {
 		scenario()
 		if i%8 == 7 {
